@@ -302,7 +302,7 @@ def tagP (pv : Int) : Int := if pv ≥ 9 ∨ pv < 0 then 1 else 0
 def topicOverheadN (pv : Int) (topic : Bytes) : Int :=
   if pv ≥ 13 then 16 + 1 + 1
   else if pv ≥ 9 then uvarlen topic.length + topic.length + 1 + 1
-  else if pv < 0 ∧ (2 + (topic.length : Int) + 4 < 16 + 1 + 1) then 16 + 1 + 1
+  else if pv < 0 ∧ (2 + (topic.length : Int) + 4 < 16 + 4 + 1) then 16 + 4 + 1
   else 2 + topic.length + 4
 
 def partsAcctN (pv : Int) : List PartBatch → Int
@@ -354,7 +354,7 @@ theorem tryAddBatchLength_eq (pv : Int) (topic : Bytes) (existing : Option Nat) 
       · have h0 : ¬ pv < 0 := by omega
         simp [h13, h9, h0]; omega
       · by_cases h0 : pv < 0
-        · by_cases hs : (2 + (topic.length : Int) + 4 < 16 + 1 + 1)
+        · by_cases hs : (2 + (topic.length : Int) + 4 < 16 + 4 + 1)
           · simp [h13, h9, h0, hs]; omega
           · simp [h13, h9, h0, hs]; omega
         · simp [h13, h9, h0]; omega
@@ -1029,55 +1029,66 @@ theorem bwl_le_unknown (v : Int) (h0 : 0 ≤ v) (b : Batch) : bwl v b ≤ bwl (-
       · simp only [h1, h2, h8, if_true, if_false]; omega
       · simp only [h1, h2, h8, if_false]; omega
 
-/-- compact length prefixes of at most three bytes: batches below 2 MiB (2^21 - 1 bytes) -/
-def SmallP : List PartBatch → Prop
-  | [] => True
-  | p :: ps => uvarintLen (uvar32 (batchLength p.batch)) ≤ 3 ∧ SmallP ps
+/-- what the unknown-version estimate of a topic (`max(2+lt+4, 16+4+1)`) leaves over once the topic is written
+at the flexible version `v`: 4 bytes of partition-array length against the compact length of a topic-id topic
+(v13), 6 bytes of name and partition-array lengths against the two compact lengths of a named topic (v9–v12),
+minus the topic's tag byte -/
+def flexSlack (v : Int) (t : TopicBatches) : Int :=
+  if v ≥ 13 then 4 - uvarlen t.parts.length else 5 - uvarlen t.topic.length - uvarlen t.parts.length
 
-def SmallT : List TopicBatches → Prop
-  | [] => True
-  | t :: ts => (t.topic.length < 32768 ∧ SmallP t.parts) ∧ SmallT ts
+def slackSum (v : Int) : List TopicBatches → Int
+  | [] => 0
+  | t :: ts => flexSlack v t + slackSum v ts
+
+/-- every topic fits its unknown-version estimate -/
+def FlexFit (v : Int) (ts : List TopicBatches) : Prop := ∀ t ∈ ts, 0 ≤ flexSlack v t
+/-- every topic fits with a byte to spare -/
+def FlexSpare (v : Int) (ts : List TopicBatches) : Prop := ∀ t ∈ ts, 1 ≤ flexSlack v t
+
+theorem slackSum_nonneg (v : Int) (ts : List TopicBatches) (h : FlexFit v ts) : 0 ≤ slackSum v ts := by
+  induction ts with
+  | nil => simp [slackSum]
+  | cons t ts ih =>
+    have h1 := h t (List.mem_cons_self ..)
+    have h2 := ih (fun x hx => h x (List.mem_cons_of_mem _ hx))
+    simp only [slackSum]; omega
+
+theorem slackSum_ge_length (v : Int) (ts : List TopicBatches) (h : FlexSpare v ts) : (ts.length : Int) ≤ slackSum v ts := by
+  induction ts with
+  | nil => simp [slackSum]
+  | cons t ts ih =>
+    have h1 := h t (List.mem_cons_self ..)
+    have h2 := ih (fun x hx => h x (List.mem_cons_of_mem _ hx))
+    simp only [slackSum, List.length_cons, Int.natCast_add]; omega
 
 theorem partAppendTo_le_unknown (e : Env) (v pid ep : Int) (tx : Bool) (pb : PartBatch) (h0 : 0 ≤ v)
-    (h : BatchInv pb.batch ∧ pb.batch.records ≠ []) (hs : v ≥ 9 → uvarintLen (uvar32 (batchLength pb.batch)) ≤ 3) :
-    ((partAppendTo e v pid ep tx pb).length : Int) ≤ 4 + bwl (-1) pb.batch := by
+    (h : BatchInv pb.batch ∧ pb.batch.records ≠ []) :
+    ((partAppendTo e v pid ep tx pb).length : Int) ≤ 4 + bwl (-1) pb.batch + 1 := by
   have hle := bwl_le_unknown v h0 pb.batch
   by_cases h3 : v < 3
   · have := partAppendTo_le_ms e v pid ep tx pb h0 h3 h; omega
-  · by_cases h9 : v ≥ 9
-    · have hb := batchAppendTo_length e.crc32c e.comp pb v pid ep tx h.1
-      have hu := bwl_unknown pb.batch
-      have hsv : (0 : Int) ≤ savingsOf e.comp pb v := Int.natCast_nonneg _
-      have hm := uvarintLen_mono (uvar32 (batchLength pb.batch - savingsOf e.comp pb v)) (uvar32 (batchLength pb.batch))
-        (by simp only [uvar32]; omega)
-      have hsm := hs h9
-      unfold partAppendTo
-      simp only [h3, h9, if_true, if_false, List.length_append, beI_length, List.length_cons, List.length_nil,
-        Int.natCast_add, hb]
-      simp only [batchLength] at hm hsm ⊢
-      omega
-    · have := partAppendTo_le e v pid ep tx pb (by omega) h.1
-      simp only [h9, if_false] at this; omega
+  · have := partAppendTo_le e v pid ep tx pb (by omega) h.1
+    split at this <;> omega
 
 theorem partsAppendTo_le_unknown (e : Env) (v pid ep : Int) (tx : Bool) (ps : List PartBatch) (h0 : 0 ≤ v)
-    (h : PartsInv ps) (hs : v ≥ 9 → SmallP ps) :
-    ((partsAppendTo e v pid ep tx ps).length : Int) + ps.length ≤ partsAcctN (-1) ps := by
+    (h : PartsInv ps) :
+    ((partsAppendTo e v pid ep tx ps).length : Int) ≤ partsAcctN (-1) ps := by
   induction ps with
   | nil => simp [partsAppendTo, partsAcctN]
   | cons p ps ih =>
-    have h1 := partAppendTo_le_unknown e v pid ep tx p h0 h.1 (fun h9 => (hs h9).1)
-    have h2 := ih h.2 (fun h9 => (hs h9).2)
-    simp only [partsAppendTo, partsAcctN, tagP, List.length_append, List.length_cons, Int.natCast_add]
+    have h1 := partAppendTo_le_unknown e v pid ep tx p h0 h.1
+    have h2 := ih h.2
+    simp only [partsAppendTo, partsAcctN, tagP, List.length_append, Int.natCast_add]
     simp only [show ((-1 : Int) ≥ 9 ∨ (-1 : Int) < 0) from Or.inr (by omega), if_true]
     omega
 
 theorem topicAppendTo_le_unknown (e : Env) (v pid ep : Int) (tx : Bool) (t : TopicBatches) (h0 : 0 ≤ v)
-    (h : PartsInv t.parts) (hid : t.topicID.length = 16) (hs : v ≥ 9 → (t.topic.length < 32768 ∧ SmallP t.parts)) :
-    ((topicAppendTo e v pid ep tx t).length : Int) ≤ topicAcctN (-1) t := by
-  have hp := partsAppendTo_le_unknown e v pid ep tx t.parts h0 h (fun h9 => (hs h9).2)
-  have hnp := uvarlen_le_succ t.parts.length
-  rw [uvarlen_eq] at hnp
-  unfold topicAppendTo topicAcctN topicOverheadN
+    (h : PartsInv t.parts) (hid : t.topicID.length = 16) :
+    ((topicAppendTo e v pid ep tx t).length : Int) + (if v ≥ 9 then flexSlack v t else 0) ≤ topicAcctN (-1) t := by
+  have hp := partsAppendTo_le_unknown e v pid ep tx t.parts h0 h
+  have hnp := uvarlen_eq t.parts.length
+  have hlt := uvarlen_eq t.topic.length
+  unfold topicAppendTo topicAcctN topicOverheadN flexSlack
   have hm1 : ¬ ((-1 : Int) ≥ 13) := by omega
   have hm9 : ¬ ((-1 : Int) ≥ 9) := by omega
   have hm0 : ((-1 : Int) < 0) := by omega
@@ -1088,9 +1099,7 @@ theorem topicAppendTo_le_unknown (e : Env) (v pid ep : Int) (tx : Bool) (t : Top
       List.length_cons, List.length_nil]
     split <;> omega
   · by_cases h9 : v ≥ 9
-    · have hlt := (hs h9).1
-      have hl3 : uvarintLen (1 + t.topic.length) ≤ 3 := Proof.C17.lenU_le 3 _ (by omega) (by omega)
-      simp only [h13, h9, if_true, if_false, List.length_append, compactArrayLen, compactString_length, uvarint_length,
+    · simp only [h13, h9, if_true, if_false, List.length_append, compactArrayLen, compactString_length, uvarint_length,
         Int.natCast_add, List.length_cons, List.length_nil]
       split <;> omega
     · simp only [h13, h9, if_false, List.length_append, arrayLen, string16_length, beI_length, Int.natCast_add,
@@ -1098,30 +1107,44 @@ theorem topicAppendTo_le_unknown (e : Env) (v pid ep : Int) (tx : Bool) (t : Top
       split <;> omega
 
 theorem topicsAppendTo_le_unknown (e : Env) (v pid ep : Int) (tx : Bool) (ts : List TopicBatches) (h0 : 0 ≤ v)
-    (h : TopicsInv ts) (hs : v ≥ 9 → SmallT ts) :
-    ((topicsAppendTo e v pid ep tx ts).length : Int) ≤ topicsAcctN (-1) ts := by
+    (h : TopicsInv ts) :
+    ((topicsAppendTo e v pid ep tx ts).length : Int) + (if v ≥ 9 then slackSum v ts else 0) ≤ topicsAcctN (-1) ts := by
   induction ts with
-  | nil => simp [topicsAppendTo, topicsAcctN]
+  | nil => simp [topicsAppendTo, topicsAcctN, slackSum]
   | cons t ts ih =>
-    have h1 := topicAppendTo_le_unknown e v pid ep tx t h0 h.1 h.2.1 (fun h9 => (hs h9).1)
-    have h2 := ih h.2.2 (fun h9 => (hs h9).2)
-    simp only [topicsAppendTo, topicsAcctN, List.length_append, Int.natCast_add]
-    omega
+    have h1 := topicAppendTo_le_unknown e v pid ep tx t h0 h.1 h.2.1
+    have h2 := ih h.2.2
+    simp only [topicsAppendTo, topicsAcctN, slackSum, List.length_append, Int.natCast_add]
+    by_cases h9 : v ≥ 9
+    · simp only [h9, if_true] at h1 h2 ⊢; omega
+    · simp only [h9, if_false] at h1 h2 ⊢; omega
 
-/-- version unknown while accounting: what is written at any version 0–13 is at most the accounting, provided
-(for a flexible written version) every batch is below 2 MiB, topic names are below 32 KiB, the transactional id
-is at most 16382 bytes and the request holds fewer than 16383 topics -/
+/-- version unknown while accounting (since d9ff59f the topic estimate is `max(2+lt+4, 16+4+1)`): what is
+written at any version 0–13 is at most the accounting. For a flexible written version the hypotheses are: the
+transactional id is at most 16382 bytes (config validation), every topic fits its estimate (`FlexFit`: at v13
+fewer than 2^28-1 partitions of the topic in the request; at v9–v12 the compact lengths of the topic name and
+of its partition count take at most 5 bytes together), and either the request holds fewer than 16383 topics or
+every topic fits with a byte to spare (`FlexSpare`) -/
 theorem appendRequest_le_unknown (e : Env) (c : Cfg) (v corr pid ep : Int) (ts : List TopicBatches)
-    (h0 : 0 ≤ v) (h : TopicsInv ts) (hs : v ≥ 9 → SmallT ts ∧ blen c.txnId ≤ 16382 ∧ ts.length < 16383) :
+    (h0 : 0 ≤ v) (h : TopicsInv ts)
+    (hs : v ≥ 9 → blen c.txnId ≤ 16382 ∧ FlexFit v ts ∧ (ts.length < 16383 ∨ FlexSpare v ts)) :
     ((appendRequest e c v corr pid ep ts).length : Int) ≤ baseProduceRequestLength c + reqAcct (-1) ts := by
-  have ht := topicsAppendTo_le_unknown e v pid ep c.txnId.isSome ts h0 h (fun h9 => (hs h9).1)
+  have ht := topicsAppendTo_le_unknown e v pid ep c.txnId.isSome ts h0 h
   unfold reqAcct
   simp only [show ¬ ((-1 : Int) ≥ 9) from by omega, if_false, Int.add_zero]
   unfold appendRequest requestAppendTo baseProduceRequestLength
   by_cases h9 : v ≥ 9
   · have h3 : v ≥ 3 := by omega
-    have htx := compactNullableString_length_le c.txnId (hs h9).2.1
-    have hT : uvarintLen (1 + ts.length) ≤ 2 := Proof.C17.lenU_le 2 _ (by have := (hs h9).2.2; omega) (by omega)
+    obtain ⟨htxn, hfit, hT⟩ := hs h9
+    have htx := compactNullableString_length_le c.txnId htxn
+    have hnn := slackSum_nonneg v ts hfit
+    have hTl : (uvarintLen (1 + ts.length) : Int) ≤ 2 + slackSum v ts := by
+      rcases hT with hT | hT
+      · have := Proof.C17.lenU_le 2 (1 + ts.length) (by omega) (by omega)
+        simp only [uvarintLen]; omega
+      · have := slackSum_ge_length v ts hT
+        have hu := uvarlen_le_succ ts.length
+        rw [uvarlen_eq] at hu; omega
     simp only [h9, h3, if_true, List.length_append, beI_length, nullableString_length, compactArrayLen, uvarint_length,
       List.length_cons, List.length_nil, Int.natCast_add] at ht ⊢
     omega
